@@ -6,4 +6,4 @@ CONSTANTS
 INIT Init
 NEXT Next
 VIEW View
-INVARIANTS FirstMatchWins DisabledEmitsNothingOthersUnaffected DifferentlyNamedUnaffected SameArgsSameObject DevNarrow
+INVARIANTS FirstMatchWins DisabledEmitsNothingOthersUnaffected DifferentlyNamedUnaffected SameArgsSameObject DifferentArgsDifferentObject DevNarrow
